@@ -1,10 +1,305 @@
 import BFL.Driver.Proto
-/- Driver entries of this group (stub: no operation handled yet). -/
+import BFL.Core.GaussJordan
+import BFL.Model.KF
+import BFL.Model.UT
+/-
+Driver entries for the unscented transform and the unscented Kalman steps (C03, C04),
+executed exactly over `Rat` (linear / noise layouts).
+
+  utw  n α β κ                                   -> "ok" wm[2n+1] wc[2n+1] c
+  utwd lin circ noise quat α β κ                 -> "ok" dof wm wc c        (weights from a layout)
+  aug  nx nz k means covs Q                      -> "ok" means' covs'       (augmentWithNoise)
+  utf  mode nx nz ny k α β κ valid A b means covs [Qin] [Nadd] Bs
+                                                 -> "ok" 1 mean cov cross weights | "ok" 0
+       mode: gen | sm | asm | mm | amm  (generic / StateModel / AdditiveStateModel /
+             MeasurementModel / AdditiveMeasurementModel overload);  Bs = one (nx+nz)² factor per
+             component: `fac` looks the covariance up among the covariances of the call
+  uukfp variant n nz k α β κ skip F [G] Q u means covs Bs         -> "ok" means covs weights
+  uukfc variant n nz m k α β κ fail H [D] R y means covs outw Bs  -> "ok" means covs weights lik…
+       variant: 0 additive, 1 augmented;  fail: 0 none, 1 no measurement, 2 prediction invalid,
+       3 innovation invalid
+
+Numbers are 16-hex-digit doubles or exact rationals `num/den`.
+
+Float execution (circular / quaternion layouts): `spl`, `utl` below.
+-/
 namespace BFL.DriverUT
 open BFL BFL.Proto
 
+/-- hex double or `num/den` -/
+def ratq : R Rat := do
+  let t ← tok
+  match t.splitOn "/" with
+  | [a, b] =>
+    match a.toInt?, b.toNat? with
+    | some x, some y => if y = 0 then failure else pure (mkRat x y)
+    | _, _ => failure
+  | _ =>
+    match parseRatHex? t with
+    | some q => pure q
+    | none => failure
+
+instance {n : Nat} : Inhabited (Vec Rat n) := ⟨Vec.of (fun _ => 0)⟩
+instance {r c : Nat} : Inhabited (Mat Rat r c) := ⟨Mat.of (fun _ _ => 0)⟩
+
+def colBlock {n k : Nat} (M : Mat Rat n (n * k)) (i : Fin k) : Mat Rat n n :=
+  Mat.eval (Mat.of (fun r c => M r ⟨n * i.val + c.val, by
+    have hi := i.isLt; have hc := c.isLt
+    calc n * i.val + c.val < n * i.val + n := by omega
+      _ = n * (i.val + 1) := by rw [Nat.mul_succ]
+      _ ≤ n * k := Nat.mul_le_mul_left n hi⟩))
+
+def readGM (n k : Nat) : R (GM Rat n k) := do
+  let means ← matCM ratq n k
+  let covs ← matCM ratq n (n * k)
+  let ms := (List.finRange k).toArray.map fun i => Vec.eval (Vec.of (fun r => means r i))
+  let cs := (List.finRange k).toArray.map fun i => colBlock covs i
+  pure { mean := fun i => ms[i.val]!
+         cov := fun i => cs[i.val]!
+         weight := Vec.of (fun _ => 0) }
+
+def readFactors (n k : Nat) : R (Array (Mat Rat n n)) := do
+  let mut acc : Array (Mat Rat n n) := #[]
+  for _ in [0:k] do
+    acc := acc.push (Mat.eval (← matCM ratq n n))
+  pure acc
+
+/-- the square-root routine of a run: the factor recorded for the covariance it is applied to
+    (exact equality of all entries); zero when the covariance is not one of the call's -/
+def facTable {n k : Nat} (b : GM Rat n k) (Bs : Array (Mat Rat n n)) : Rat → Mat Rat n n → Mat Rat n n :=
+  let table := (List.finRange k).toArray.map fun i => (Mat.toList (b.cov i), Bs[i.val]!)
+  fun _ P =>
+    let key := Mat.toList P
+    match table.find? (fun p => p.1 == key) with
+    | some (_, B) => B
+    | none => Mat.zero
+
+def outFam {k n : Nat} (v : Fin k → Vec Rat n) : List String :=
+  (List.finRange k).flatMap fun i => outVec ratStr (v i)
+
+def outFamM {k r c : Nat} (v : Fin k → Mat Rat r c) : List String :=
+  (List.finRange k).flatMap fun i => outMatCM ratStr (Mat.eval (v i))
+
+def outUT {nx ny k : Nat} (o : UTOut Rat nx ny k) : List String :=
+  outFam o.mean ++ outFamM o.cov ++ outFamM o.cross ++ outVec ratStr o.weight
+
+def outGM {n k : Nat} (b : GM Rat n k) : List String :=
+  outFam b.mean ++ outFamM b.cov ++ outVec ratStr b.weight
+
+def utw : R String := do
+  let n ← nat; let a ← ratq; let b ← ratq; let kp ← ratq
+  done
+  let w := utWeights n a b kp
+  if (n : Rat) + utLambda n a kp = 0 then pure "undefined:c=0" else
+  pure (join ("ok" :: outVec ratStr w.mean ++ outVec ratStr w.cov ++ [ratStr w.c]))
+
+def utwd : R String := do
+  let lin ← nat; let circ ← nat; let noise ← nat; let quat ← bool
+  let a ← ratq; let b ← ratq; let kp ← ratq
+  done
+  let ly : Layout := { lin := lin, circ := circ, quat := quat, noise := noise }
+  let n := ly.dof
+  let w := utWeights n a b kp
+  if (n : Rat) + utLambda n a kp = 0 then pure "undefined:c=0" else
+  pure (join ("ok" :: toString n :: outVec ratStr w.mean ++ outVec ratStr w.cov ++ [ratStr w.c]))
+
+def aug : R String := do
+  let nx ← nat; let nz ← nat; let k ← nat
+  let b ← readGM nx k
+  let Q ← matCM ratq nz nz
+  done
+  let a := augmentWithNoise b Q
+  pure (join ("ok" :: outFam a.mean ++ outFamM a.cov))
+
+/-- augns lin k r c means covs Q(r × c) -> "ok" 1 dim | "ok" 0   (the guard of augmentWithNoise) -/
+def augns : R String := do
+  let nx ← nat; let k ← nat; let r ← nat; let c ← nat
+  let b ← readGM nx k
+  let Q ← matCM ratq r c
+  done
+  match augmentWithNoiseChecked b Q with
+  | none => pure "ok 0"
+  | some _ => pure s!"ok 1 {nx + r}"
+
+def outOpt {nx ny k : Nat} (o : Option (UTOut Rat nx ny k)) : String :=
+  match o with
+  | none => "ok 0"
+  | some o => join ("ok" :: "1" :: outUT o)
+
+def utf : R String := do
+  let mode ← tok
+  let nx ← nat; let nz ← nat; let ny ← nat; let k ← nat
+  let a ← ratq; let b ← ratq; let kp ← ratq
+  let valid ← bool
+  let A ← matCM ratq ny (nx + nz)
+  let bv ← vec ratq ny
+  let b0 ← readGM nx k
+  let Qin ← matCM ratq nz nz
+  let additive := mode == "asm" || mode == "amm"
+  let Nadd ← if additive then matCM ratq ny ny else pure Mat.zero
+  let Bs ← readFactors (nx + nz) k
+  done
+  let A := Mat.eval A
+  if ((nx + nz : Nat) : Rat) + utLambda (nx + nz) a kp = 0 then pure "undefined:c=0" else
+  let w := utWeights (nx + nz) a b kp
+  -- additive modes take the belief as it is; the others take the augmented belief when nz > 0
+  let bel : GM Rat (nx + nz) k := augmentWithNoise b0 Qin
+  let fac := facTable bel Bs
+  let g := affineMap (k := k) (N := 2 * (nx + nz) + 1) A bv
+  let f : FunEval Rat (nx + nz) ny k := fun X => if valid then some (g X) else none
+  match mode with
+  | "gen" => pure (outOpt (unscentedTransform (nx := nx) (nz := nz) fac w bel f))
+  | "sm" => pure (outOpt (some (utStateModel (nx := nx) (nz := nz) fac w bel g)))
+  | "asm" => pure (outOpt (some (utAdditiveStateModel (nx := nx) (nz := nz) fac w bel g Nadd)))
+  | "mm" => pure (outOpt (utMeasurementModel (nx := nx) (nz := nz) fac w bel f))
+  | "amm" => pure (outOpt (utAdditiveMeasurementModel (nx := nx) (nz := nz) fac w bel f Nadd))
+  | _ => failure
+
+/-- certified exact inverse; zero when singular or when the certificate fails (reported by the
+    caller, which re-certifies every matrix the step inverted) -/
+def invCert {m : Nat} (S : Mat Rat m m) : Option (Mat Rat m m) :=
+  match matInv? m S with
+  | none => none
+  | some X => let X := Mat.eval X; if certInv m S X then some X else none
+
+def invOrZero {m : Nat} (S : Mat Rat m m) : Mat Rat m m := (invCert (Mat.eval S)).getD Mat.zero
+
+def uukfp : R String := do
+  let variant ← nat
+  let n ← nat; let nz ← nat; let k ← nat
+  let a ← ratq; let b ← ratq; let kp ← ratq
+  let skip ← bool
+  let F ← matCM ratq n n
+  if variant == 0 then do
+    let Q ← matCM ratq n n
+    let u ← vec ratq n
+    let prev ← readGM n k
+    let Bs ← readFactors n k
+    done
+    if (n : Rat) + utLambda n a kp = 0 then pure "undefined:c=0" else
+    let fac := facTable prev Bs
+    let res := ukfPredictAdditive fac a b kp skip (affineMap (Mat.eval F) u) (Mat.eval Q) prev
+    pure (join ("ok" :: outGM res))
+  else do
+    let G ← matCM ratq n nz
+    let Q ← matCM ratq nz nz
+    let u ← vec ratq n
+    let prev ← readGM n k
+    let Bs ← readFactors (n + nz) k
+    done
+    if ((n + nz : Nat) : Rat) + utLambda (n + nz) a kp = 0 then pure "undefined:c=0" else
+    let Q := Mat.eval Q
+    let fac := facTable (augmentWithNoise prev Q) Bs
+    let res := ukfPredictAugmented fac a b kp skip (affineMap (Mat.eval (hcat F G)) u) Q prev
+    pure (join ("ok" :: outGM res))
+
+def outCorr {n m k : Nat} (r : UKFCorrOut Rat n m k) : String :=
+  match r.lik with
+  | none => join ("ok" :: outGM r.belief ++ ["nolik"])
+  | some (nu, S) =>
+    if (List.finRange k).any (fun i => (invCert (Mat.eval (S i))).isNone) then "inv-cert-fail" else
+    join ("ok" :: outGM r.belief ++ ["lik"] ++ outFam nu ++ outFamM S)
+
+def uukfc : R String := do
+  let variant ← nat
+  let n ← nat; let nz ← nat; let m ← nat; let k ← nat
+  let a ← ratq; let b ← ratq; let kp ← ratq
+  let fail ← nat
+  let H ← matCM ratq m n
+  let innov : (Fin k → Vec Rat m) → Vec Rat m → Option (Fin k → Vec Rat m) :=
+    if fail == 3 then (fun _ _ => none) else linearInnovation
+  if variant == 0 then do
+    let Rm ← matCM ratq m m
+    let y ← vec ratq m
+    let pred ← readGM n k
+    let outw ← vec ratq k
+    let Bs ← readFactors n k
+    done
+    if (n : Rat) + utLambda n a kp = 0 then pure "undefined:c=0" else
+    let fac := facTable pred Bs
+    let g := affineMap (k := k) (N := 2 * n + 1) (Mat.eval H) Vec.zero
+    let f : FunEval Rat n m k := fun X => if fail == 2 then none else some (g X)
+    let out : GM Rat n k := { pred with weight := outw }
+    let res := ukfCorrectAdditive fac invOrZero a b kp (if fail == 1 then none else some y) f (Mat.eval Rm) innov pred out
+    pure (outCorr res)
+  else do
+    let D ← matCM ratq m nz
+    let Rm ← matCM ratq nz nz
+    let y ← vec ratq m
+    let pred ← readGM n k
+    let outw ← vec ratq k
+    let Bs ← readFactors (n + nz) k
+    done
+    if ((n + nz : Nat) : Rat) + utLambda (n + nz) a kp = 0 then pure "undefined:c=0" else
+    let Rm := Mat.eval Rm
+    let fac := facTable (augmentWithNoise pred Rm) Bs
+    let g := affineMap (k := k) (N := 2 * (n + nz) + 1) (Mat.eval (hcat H D)) Vec.zero
+    let f : FunEval Rat (n + nz) m k := fun X => if fail == 2 then none else some (g X)
+    let out : GM Rat n k := { pred with weight := outw }
+    let res := ukfCorrectAugmented fac invOrZero a b kp (if fail == 1 then none else some y) f Rm innov pred out
+    pure (outCorr res)
+
+
+/-! ### Float execution: circular and quaternion layouts -/
+
+instance : Zero Float := ⟨0.0⟩
+instance : One Float := ⟨1.0⟩
+instance {r c : Nat} : Inhabited (Mat Float r c) := ⟨Mat.of (fun _ _ => 0.0)⟩
+
+def readBlocks {r c : Nat} (k : Nat) : R (Array (Mat Float r c)) := do
+  let mut acc : Array (Mat Float r c) := #[]
+  for _ in [0:k] do
+    acc := acc.push (Mat.eval (← matCM flt r c))
+  pure acc
+
+/-- spl lin circ quat noise k | means (dim × k) | perturbations (dof × (2dof+1), one block per component)
+    -> "ok" sigma points (dim × (2dof+1) per component, column-major) -/
+def spl : R String := do
+  let lin ← nat; let circ ← nat; let quat ← bool; let noise ← nat; let k ← nat
+  let ly : Layout := { lin := lin, circ := circ, quat := quat, noise := noise }
+  let means ← matCM flt ly.dim k
+  let perts ← readBlocks (r := ly.dof) (c := 2 * ly.dof + 1) k
+  done
+  let outs := (List.range k).flatMap fun i =>
+    let m : Vec Float ly.dim := Vec.eval (Vec.of (fun r => means.getN r.val i))
+    outMatCM floatStr (sigmaPointsLayout ly m (perts[i]!))
+  pure (join ("ok" :: outs))
+
+/-- utl linI circI quatI noiseI linO circO quatO k | wm wc (2 dofI + 1 each) | input means (dimI × k)
+      | X (dimI × N per component) | Y (dimO × N per component) | eigenvector results (4 per quaternion block per component)
+    -> "ok" per component: mean (dimO), covariance (dofO²), cross ((dofI − noiseI) × dofO) -/
+def utl : R String := do
+  let linI ← nat; let circI ← nat; let quatI ← bool; let noiseI ← nat
+  let linO ← nat; let circO ← nat; let quatO ← bool; let k ← nat
+  let lyI : Layout := { lin := linI, circ := circI, quat := quatI, noise := noiseI }
+  let lyO : Layout := { lin := linO, circ := circO, quat := quatO, noise := 0 }
+  let wm ← vec flt (2 * lyI.dof + 1)
+  let wc ← vec flt (2 * lyI.dof + 1)
+  let means ← matCM flt lyI.dim k
+  let Xs ← readBlocks (r := lyI.dim) (c := 2 * lyI.dof + 1) k
+  let Ys ← readBlocks (r := lyO.dim) (c := 2 * lyI.dof + 1) k
+  let nq := if quatO then circO else 0
+  let qm ← matCM flt 4 (nq * k)
+  done
+  let w : UTWeight Float lyI.dof := { mean := wm, cov := wc, c := 0.0 }
+  let outs := (List.range k).flatMap fun i =>
+    let m : Vec Float lyI.dim := Vec.eval (Vec.of (fun r => means.getN r.val i))
+    let qmean : Nat → Quat Float := fun q => quatAt qm 0 (nq * i + q)
+    let res := utLayoutComponent lyI lyO w m (Xs[i]!) (Ys[i]!) qmean
+    outVec floatStr res.1 ++ outMatCM floatStr res.2.1 ++ outMatCM floatStr res.2.2
+  pure (join ("ok" :: outs))
+
 def handle (op : String) (args : List String) : Option String :=
   match op with
+  | "utw" => some ((run utw args).getD "bad-args")
+  | "utwd" => some ((run utwd args).getD "bad-args")
+  | "aug" => some ((run aug args).getD "bad-args")
+  | "augns" => some ((run augns args).getD "bad-args")
+  | "utf" => some ((run utf args).getD "bad-args")
+  | "uukfp" => some ((run uukfp args).getD "bad-args")
+  | "uukfc" => some ((run uukfc args).getD "bad-args")
+  | "spl" => some ((run spl args).getD "bad-args")
+  | "utl" => some ((run utl args).getD "bad-args")
   | _ => none
 
 end BFL.DriverUT
